@@ -23,11 +23,19 @@ def run(tier, seed):
     cases = [c for c in r.printed if isinstance(c, dict) and "op" in c]
     if not cases:
         raise vlib.Infra("no cases generated")
-    # the cut-and-choose verifier allocates TMCG_MAX_STACK_CHARS per received stack secret, which costs seconds under
-    # ASan: in the quick tier every 6th of its cases is run
+    # quick tier: a seed-dependent subset of the enumeration (every sample and every operator stays represented);
+    # consumers that cost seconds under ASan (key checks, the cut-and-choose verifier with its TMCG_MAX_STACK_CHARS
+    # buffers) get fewer cases
     if tier == "quick":
-        heavy = [c for c in cases if c["type"] == "ccproof"]
-        cases = [c for c in cases if c["type"] != "ccproof"] + heavy[(seed % 6)::6]
+        heavy = {"ccproof": 24, "pubkey": 40, "seckey": 40, "qstack": 60, "qssec": 60, "sig": 40, "enc": 40}
+        bytype = {}
+        for c in cases:
+            bytype.setdefault(c["type"], []).append(c)
+        cases = []
+        for t, cs in sorted(bytype.items()):
+            cap = heavy.get(t, 140)
+            step = max(1, len(cs) // cap)
+            cases += cs[(seed % step)::step]
     nchunks = 16
     parts = [cases[k::nchunks] for k in range(nchunks)]
     def one(k):
